@@ -188,7 +188,10 @@ class WebSocketReader:
         self._compress = compress
 
     def feed_eof(self) -> None:
-        self.queue.feed_eof()
+        # A recorded protocol error already ended the queue; feeding EOF would
+        # erase it before the application has read it.
+        if self._exc is None:
+            self.queue.feed_eof()
 
     # data can be bytearray on Windows because proactor event loop uses bytearray
     # and asyncio types this to Union[bytes, bytearray, memoryview] so we need
